@@ -402,7 +402,11 @@ type Clause struct {
 	E    Expr
 	Pos  string
 	Idx  int // ordinal among clauses of this kind in the contract
+	Tag  string // optional "[C05]" label: which property the clause belongs to
 }
+
+// label renders the clause ordinal with its tag, e.g. "3[C05]".
+func (c *Clause) label() string { return fmt.Sprintf("%d%s", c.Idx, c.Tag) }
 
 type Param struct{ Name, Type string }
 
@@ -550,6 +554,12 @@ func ParseContractFile(path, pkgPath string) ([]*Contract, error) {
 	}
 	flushClause := func() error {
 		if curClause != nil {
+			if t := strings.TrimSpace(curClause.Text); strings.HasPrefix(t, "[") {
+				if i := strings.Index(t, "]"); i > 0 {
+					curClause.Tag = strings.ReplaceAll(t[:i+1], " ", "")
+					curClause.Text = strings.TrimSpace(t[i+1:])
+				}
+			}
 			e, err := ParseExpr(curClause.Text)
 			if err != nil {
 				return fmt.Errorf("%s: %v", curClause.Pos, err)
